@@ -61,6 +61,33 @@ Theorem C08_spec_outermost (a : ident) (outer inner : list mentry) :
 Proof. exact (spec_outermost a outer inner). Qed.
 Print Assumptions C08_spec_outermost.
 
+(* Steps of the refinement WITH modifications that are proved (each for arbitrary arguments):
+   C08_apply_args_leaf — at a leaf, the attributes that modify_symbol's setattr loop leaves (last argument
+   naming an attribute wins) are the specification's lookup (first match) in the REVERSED entries of the same
+   attribute arguments;  C08_shift_is_sub — moving a dotted argument n.m.rest(ms) to component n by dropping
+   the first name (tree.py:542) yields exactly the specification's sub-modifiers of n, and an argument for
+   another component contributes none.  NOT proved: C08_refines for whole libraries; missing lemma
+   build_leaf_list — the list that build delivers to each leaf through 440-561 (declaration, then extends
+   clause, then enclosing components, each with its scope) is the reverse of the specification's entries
+   sub_mods(...(flat_args ...)) for that leaf, and the per-scope application + renaming resolves every
+   expression in the writing instance under the hypotheses excluding the recorded shapes (dotted attribute,
+   scope clash, alias of alias, alias below a nested class). *)
+Theorem C08_apply_args_leaf (env : option path) (a : ident) (l : list marg) (r : list (ident * expr)) :
+  Forall simple_arg1 l -> apply_args l [] = Ok r ->
+  get_attr a r = option_map entry_expr (attr_lookup a (rev (flat_args env l))).
+Proof. exact (apply_args_leaf env a l r). Qed.
+Print Assumptions C08_apply_args_leaf.
+
+Theorem C08_shift_is_sub (env : option path) (sc : option path) (n m : ident) (rest : path) (ms : list mval) :
+  shift_arg (MArg sc (n :: m :: rest) ms) = Ok (MArg sc (m :: rest) ms) /\
+  sub_mods n (flat_arg env (MArg sc (n :: m :: rest) ms)) = flat_arg env (MArg sc (m :: rest) ms) /\
+  (forall h t, Pos.eqb h n = false -> sub_mods n (flat_arg env (MArg sc (h :: t) ms)) = []).
+Proof.
+  split; [reflexivity|]. split; [exact (sub_mods_shift env sc n m rest ms)|].
+  intros h t N. exact (sub_mods_other env sc n h t ms N).
+Qed.
+Print Assumptions C08_shift_is_sub.
+
 (* recorded defect: model C Real x; end C; model B C c; end B; model M B b(<m>); end M;
    <m> = c.x(start = 3) sets start;  <m> = c.x.start = 3 becomes the equation b.c.x = 3 and leaves start
    unset; both are accepted;  <m> = c(x(start = 3)) is rejected *)
